@@ -532,9 +532,9 @@ theorem trBarFromK_scale (c : K) (hc : 0 ≤ c) (pc : K) (bs : List (Bar K)) :
   induction bs generalizing pc with
   | nil => rfl
   | cons b t ih =>
-    have e : ∀ a b : K, |c * a - c * b| = c * |a - b| := fun a b => by
-      rw [← mul_sub, abs_mul, abs_of_nonneg hc]
-    simp only [List.map_cons, trBarFromK, scaleBar, e, ih, ← mul_sub, ← mul_max_of_nonneg _ _ hc]
+    have e : ∀ a : K, |c * a| = c * |a| := fun a => by rw [abs_mul, abs_of_nonneg hc]
+    simp only [List.map_cons, trBarFromK, scaleBar, ih, ← mul_sub, e]
+    rw [mul_max_of_nonneg _ _ hc, mul_max_of_nonneg _ _ hc]
 
 theorem trBarFromK_shift (d : K) (pc : K) (bs : List (Bar K)) :
     trBarFromK (pc + d) (bs.map (shiftBar d)) = trBarFromK pc bs := by
